@@ -83,6 +83,18 @@ StopApp(a) ==
   /\ last' = [act |-> "StopApp", apps |-> {a}]
   /\ UNCHANGED pend
 
+(* The host gives up on an application while its subroutine is suspended INSIDE an instruction (the reset of a  *)
+(* freed physical qubit takes time).  Whatever part of that instruction already happened, the application and  *)
+(* everything it holds are gone afterwards; what is left of the subroutine may not change anything any more.   *)
+AbortApp(a) ==
+  /\ a \in apps /\ subs[a].active /\ ~reqs[a].has /\ \A i \in DOMAIN pend : pend[i].app # a
+  /\ apps' = apps \ {a}
+  /\ used' = used \ MappedOf(a)
+  /\ ms' = [ms EXCEPT ![a] = NoApp]
+  /\ subs' = [subs EXCEPT ![a] = NoSub] /\ reqs' = [reqs EXCEPT ![a] = NoReq]
+  /\ last' = [act |-> "StopApp", apps |-> {a}]
+  /\ UNCHANGED pend
+
 BeginSub(a, p) ==
   /\ a \in apps /\ ~subs[a].active
   /\ (p \in {"keep1", "keepfree"} => ~reqs[a].has /\ Len(ms[a].um) >= 2 /\ \A i \in DOMAIN pend : pend[i].app # a)
@@ -144,7 +156,7 @@ Retry ==
   /\ UNCHANGED <<apps, used, subs>>
 
 Next == \/ \E a \in AppIds, n \in UMSizes : InitApp(a, n)
-        \/ \E a \in AppIds : StopApp(a) \/ StepApp(a)
+        \/ \E a \in AppIds : StopApp(a) \/ StepApp(a) \/ AbortApp(a)
         \/ \E a \in AppIds : \E phys \in {MinUnused(used), MinUnused(used \cup {MinUnused(used)})} : DeliverK(a, phys)
         \/ \E a \in AppIds, p \in ProgNames : BeginSub(a, p)
         \/ Retry
